@@ -1877,6 +1877,10 @@ func (data *Data) DropRetentionPolicy(database, name string) error {
 		return nil
 	}
 	delete(di.RetentionPolicies, name)
+	if name != "" && di.DefaultRetentionPolicy == name {
+		// the default policy is gone: do not keep a dangling default name
+		di.DefaultRetentionPolicy = ""
+	}
 
 	return nil
 }
